@@ -281,6 +281,14 @@ class CContext:
         fmt = self.ctypes_names[tid]
         # Check format with arch options:
         assert self.sizeof(typ) == struct.calcsize(fmt)
+        if fmt[-1] in "fd":
+            value = float(value)
+        else:
+            # Convert to the destination type: keep the low bits
+            bits = 8 * struct.calcsize(fmt)
+            value = int(value) & ((1 << bits) - 1)
+            if fmt[-1].islower() and value >> (bits - 1):
+                value -= 1 << bits
         return struct.pack(fmt, value)
 
     def _make_ival(self, typ, ival):
